@@ -25,6 +25,21 @@ def skipped (σ : Space) (p : Field) (v : Val) : Bool :=
      | _ => false)
   | _ => false
 
+/-- members in declaration order, `skip_serializing_if` applied (the recursive call is a parameter) -/
+def seFieldsR (rec : Id → Val → Except E Json) (σ : Space) :
+    List Field → List (String × Val) → Except E (List (String × Json))
+  | [], [] => .ok []
+  | p :: ps, (_, v) :: fs =>
+    if p.rename == .flatten then .error .unsupported else
+    match seFieldsR rec σ ps fs with
+    | .error e => .error e
+    | .ok rest =>
+      if skipped σ p v then .ok rest else
+      match rec p.ty v with
+      | .error e => .error e
+      | .ok j => .ok ((p.wire, j) :: rest)
+  | _, _ => .error .reject
+
 mutual
 def se (σ : Space) : Nat → Id → Val → Except E Json
   | 0, _, _ => .error .fuel
@@ -68,7 +83,7 @@ def se (σ : Space) : Nat → Id → Val → Except E Json
       | .newtype _ inner _ _ => se σ f inner v
       | .struct _ props _ _ =>
         (match v with
-         | .struct fs => (match seFields σ f props fs with | .ok es => .ok (.obj es) | .error e => .error e)
+         | .struct fs => (match seStruct σ f props fs with | .ok es => .ok (.obj es) | .error e => .error e)
          | _ => .error .reject)
       | .enum _ tag variants _ _ _ =>
         match v with
@@ -89,13 +104,20 @@ def se (σ : Space) : Nat → Id → Val → Except E Json
                 | d => match seVariantBody σ f d p with
                   | .ok b => .ok (.obj [(tg, .str vr.wire), (ct, b)]) | .error e => .error e)
              | .internal tg =>
-               (match vr.details with
-                | .simple => .ok (.obj [(tg, .str vr.wire)])
-                | .tuple _ => .error .unsupported
-                | d => match seVariantBody σ f d p with
-                  | .ok (.obj es) => .ok (.obj ((tg, .str vr.wire) :: es))
-                  | .ok _ => .error .reject          -- serde: cannot serialize tagged newtype variant
-                  | .error e => .error e))
+               -- (fuel accounting mirrors `de`'s internal arm)
+               (match vr.details, p with
+                | .simple, _ => .ok (.obj [(tg, .str vr.wire)])
+                | .tuple _, _ => .error .unsupported
+                | .struct ps, .struct fs =>
+                  (match seStruct σ f ps fs with
+                   | .ok es => .ok (.obj ((tg, .str vr.wire) :: es))
+                   | .error e => .error e)
+                | .struct _, _ => .error .reject
+                | .item t', p =>
+                  (match se σ f t' p with
+                   | .ok (.obj es) => .ok (.obj ((tg, .str vr.wire) :: es))
+                   | .ok _ => .error .reject          -- serde: cannot serialize tagged newtype variant
+                   | .error e => .error e)))
         | _ => .error .reject
 
 def seVariantBody (σ : Space) : Nat → VDetails → Val → Except E Json
@@ -110,23 +132,13 @@ def seVariantBody (σ : Space) : Nat → VDetails → Val → Except E Json
        | _ => .error .reject)
     | .struct ps =>
       (match p with
-       | .struct fs => (match seFields σ f ps fs with | .ok es => .ok (.obj es) | .error e => .error e)
+       | .struct fs => (match seStruct σ f ps fs with | .ok es => .ok (.obj es) | .error e => .error e)
        | _ => .error .reject)
 
-/-- members in declaration order, `skip_serializing_if` applied -/
-def seFields (σ : Space) : Nat → List Field → List (String × Val) → Except E (List (String × Json))
+/-- a struct's (or struct variant's) members; consumes one unit of fuel like `deStruct` -/
+def seStruct (σ : Space) : Nat → List Field → List (String × Val) → Except E (List (String × Json))
   | 0, _, _ => .error .fuel
-  | _ + 1, [], [] => .ok []
-  | f + 1, p :: ps, (_, v) :: fs =>
-    if p.rename == .flatten then .error .unsupported else
-    match seFields σ f ps fs with
-    | .error e => .error e
-    | .ok rest =>
-      if skipped σ p v then .ok rest else
-      match se σ f p.ty v with
-      | .error e => .error e
-      | .ok j => .ok ((p.wire, j) :: rest)
-  | _ + 1, _, _ => .error .reject
+  | f + 1, ps, fs => seFieldsR (se σ f) σ ps fs
 end
 
 end TypifyModel.Serde
